@@ -298,8 +298,9 @@ def rule_args(rep):
             continue
         a = cs[0]["args"]
         pn = [p["name"] for p in fn["params"]]
+        # the channel count may be passed through an immutable local: nbr_channels is an immutable field (checked below), so the value is the same
         ok = (len(a) == 6 and is_path(a[0], pn[0]) and is_path(a[1], pn[1]) and nbit(a[2]) == "&self.channel_mask"
-              and nbit(a[3]) == "self.nbr_channels")
+              and nbit(ir.resolve_let(fn, a[3])) == "self.nbr_channels")
         rep.ob(R, key, ok, "validate_buffers(%s): first four arguments must be (wave_in, wave_out, &self.channel_mask, self.nbr_channels)"
                % ", ".join(show(x) for x in a[:4]), loc(fn, cs[0]), sample={"fn": key, "args": [show(x) for x in a]})
         # nbr_channels field really is the channel count the buffers were allocated with
